@@ -443,6 +443,7 @@ instance : LawfulNum Int where
   toInt_ofInt i := rfl
   ofInt_inj i j h := h
   isNan_ofInt _ := rfl
+  isInf_ofInt _ := rfl
   floor_ofInt _ := rfl
 
 example : ([.str "a", JV.ofNat 0] : List (JV Int)) ∈ (JV.obj [("a", .arr [.null])] : JV Int).paths := by
